@@ -5,6 +5,7 @@ CONSTANTS
   Steps = 1
   ClassSel = "all"
   FirstSel = "four"
+  CollectMode = "bound"
 INIT Init
 NEXT Next
 INVARIANT Explained
